@@ -101,6 +101,109 @@ def _mask_stores(cfg, cls=None):
     return out
 
 
+_KEYS = ("observation", "action", "reward", "next_observation", "terminated", "truncated")
+
+
+def _const_test(t, k, env):
+    """Evaluate a test on the loop key ``k`` (a constant); None if it does not only depend on the key."""
+    if isinstance(t, ast.Compare) and len(t.ops) == 1 and isinstance(t.left, ast.Name) and t.left.id == "k":
+        op, c = t.ops[0], t.comparators[0]
+        if isinstance(c, ast.Name) and isinstance(env.get(c.id), ast.Dict):
+            c = ast.List(elts=[x for x in env[c.id].keys if x is not None], ctx=ast.Load())
+        if isinstance(op, (ast.Eq, ast.NotEq)) and isinstance(c, ast.Constant):
+            r = c.value == k
+            return r if isinstance(op, ast.Eq) else not r
+        if isinstance(op, (ast.In, ast.NotIn)) and isinstance(c, (ast.List, ast.Tuple, ast.Set)) and all(isinstance(x, ast.Constant) for x in c.elts):
+            r = k in [x.value for x in c.elts]
+            return r if isinstance(op, ast.In) else not r
+        return None
+    if isinstance(t, ast.BoolOp):
+        vs = [_const_test(x, k, env) for x in t.values]
+        if any(v is None for v in vs):
+            return None
+        return all(vs) if isinstance(t.op, ast.And) else any(vs)
+    if isinstance(t, ast.UnaryOp) and isinstance(t.op, ast.Not):
+        v = _const_test(t.operand, k, env)
+        return None if v is None else not v
+    return None
+
+
+def _specialise(e, k, env):
+    """Resolve key-dependent selections in an index expression for the concrete key ``k``."""
+    if isinstance(e, ast.Name) and e.id in env and not isinstance(env[e.id], ast.Dict):
+        return _specialise(env[e.id], k, env)
+    if isinstance(e, ast.IfExp):
+        v = _const_test(e.test, k, env)
+        if v is None:
+            raise AnalysisError(f"{CQ}.sample_batch: index selection `{short(e, 60)}` does not only depend on the field name (unrecognised idiom)")
+        return _specialise(e.body if v else e.orelse, k, env)
+    if isinstance(e, ast.Call) and isinstance(e.func, ast.Attribute) and e.func.attr == "get" and isinstance(e.func.value, ast.Name) and isinstance(env.get(e.func.value.id), ast.Dict) \
+            and e.args and isinstance(e.args[0], ast.Name) and e.args[0].id == "k":
+        d = env[e.func.value.id]
+        for kk, vv in zip(d.keys, d.values):
+            if isinstance(kk, ast.Constant) and kk.value == k:
+                return _specialise(vv, k, env)
+        if len(e.args) > 1:
+            return _specialise(e.args[1], k, env)
+        raise AnalysisError(f"{CQ}.sample_batch: `{short(e, 60)}` has no default for field `{k}`")
+    if isinstance(e, ast.Subscript) and isinstance(e.value, ast.Name) and isinstance(env.get(e.value.id), ast.Dict) and isinstance(e.slice, ast.Name) and e.slice.id == "k":
+        d = env[e.value.id]
+        for kk, vv in zip(d.keys, d.values):
+            if isinstance(kk, ast.Constant) and kk.value == k:
+                return _specialise(vv, k, env)
+        raise AnalysisError(f"{CQ}.sample_batch: `{short(e, 60)}` has no entry for field `{k}`")
+    return e
+
+
+def _gather_index(e):
+    """IDX of the (single) `self.buffer[k][IDX]` gather inside expression e."""
+    gs = [n for n in ast.walk(e) if isinstance(n, ast.Subscript) and isinstance(n.value, ast.Subscript) and dotted(n.value.value) == "self.buffer"
+          and isinstance(n.value.slice, ast.Name) and n.value.slice.id == "k"]
+    return gs[0].slice if len(gs) == 1 else None
+
+
+def _field_indices(cfg, stmts, fn):
+    """field name -> (index expression, CFG node at which to normalise it) for the statements of the no-intermediate branch."""
+    out = {}
+    env = {}   # locals of the branch that hold selection tables / per-key choices
+
+    def node_of(st):
+        return cfg.stmt_node[id(st)]
+
+    def run_body(body, k, kenv):
+        for st in body:
+            if isinstance(st, ast.If):
+                v = _const_test(st.test, k, kenv)
+                if v is None:
+                    raise AnalysisError(f"{CQ}.sample_batch: branch `{short(st.test, 50)}` inside the per-field loop does not only depend on the field name (unrecognised idiom)")
+                run_body(st.body if v else st.orelse, k, kenv)
+            elif isinstance(st, ast.Assign) and len(st.targets) == 1:
+                t = st.targets[0]
+                ix = _gather_index(st.value)
+                if ix is not None:
+                    out[k] = (_specialise(ix, k, kenv), kenv.get("@at", node_of(st)))
+                elif isinstance(t, ast.Name):
+                    kenv[t.id] = st.value
+                    kenv["@at"] = node_of(st)
+    for st in stmts:
+        if isinstance(st, ast.For) and isinstance(st.target, ast.Name) and st.target.id == "k" and dotted(st.iter) in ("self.buffer", "self.buffer.keys()"):
+            for k in _KEYS:
+                run_body(st.body, k, dict(env))
+        elif isinstance(st, ast.Assign) and len(st.targets) == 1 and isinstance(st.targets[0], ast.Name) and isinstance(st.value, ast.Dict) and all(isinstance(x, ast.Constant) for x in st.value.keys if x is not None) \
+                and not any(isinstance(x, (ast.DictComp,)) for x in ast.walk(st.value)):
+            env[st.targets[0].id] = st.value
+        else:
+            for dc in [x for x in ast.walk(st) if isinstance(x, ast.DictComp)]:
+                g = dc.generators[0]
+                if len(dc.generators) == 1 and isinstance(g.target, ast.Name) and g.target.id == "k" and dotted(g.iter) in ("self.buffer", "self.buffer.keys()") and not g.ifs:
+                    ix = _gather_index(dc.value)
+                    if ix is None:
+                        continue
+                    for k in _KEYS:
+                        out[k] = (_specialise(ix, k, env), node_of(st))
+    return out
+
+
 def run(ck, repo: Repo, tier: str):
     nf = NF(repo, inline_depth=1, inline_calls=False)
     fn = _m(repo, CQ, "add_sample")
@@ -239,31 +342,40 @@ def run(ck, repo: Repo, tier: str):
     want = nf.poly(parse_expr("(self._sample_idx(batch_size, rng)[:, np.newaxis] + np.arange(horizon)[np.newaxis]) % self.current_len"), Scope(None, mi, s4.env, "w"), None).canon()
     ok = iv == want
     ck.ob("R5-window-indices", CQ + ".sample_batch", "consecutive-mod-len", ok, f"indices = {iv}", "" if ok else f"must be {want}: consecutive slots from the sampled start, wrapped at current_len (buffer_size would read never-written slots of a partly filled buffer)", loc(mi, f4))
-    # no-intermediate table
-    table = {}
-    for n in c4.nodes:
-        if n.kind == "stmt" and isinstance(n.ast, ast.Assign) and dotted(n.ast.targets[0]) == "indices_without_intermediate":
-            conds = [(t, v) for b, lab in c4.control_deps(n.id) if c4.nodes[b].kind == "test" for t, v in c4._lits(c4.nodes[b].ast.test, lab, b)]
-            key = tuple((t, v) for t, v in conds if t != "include_intermediate")
-            table[key] = ast.unparse(n.ast.value)
-    want_tbl = {
-        (("k in ['observation', 'action']", True),): "indices[:, 0]",
-        (("k in ['observation', 'action']", False), ("k == 'next_observation'", True)): "indices[:, -1]",
-        (("k in ['observation', 'action']", False), ("k == 'next_observation'", False)): "indices",
-    }
-    ck.need(table, f"{CQ}.sample_batch: per-field index selection of the no-intermediate view not found (unrecognised idiom)")
-    norm = {tuple(sorted(k)): v for k, v in table.items()}
-    wn = {tuple(sorted(k)): v for k, v in want_tbl.items()}
-    ok = norm == wn
-    ck.ob("R6-no-intermediate-view", CQ + ".sample_batch", "field-table", ok, f"{sorted(table.values())}", "" if ok else f"observation/action must use indices[:, 0], next_observation indices[:, -1], all other fields the full window; got {table}", loc(mi, f4))
-    gathers = [n for n in ast.walk(f4) if isinstance(n, ast.Subscript) and isinstance(n.value, ast.Subscript) and dotted(n.value.value) == "self.buffer"]
-    idxs = sorted({ast.unparse(g.slice) for g in gathers})
-    ok = idxs == ["indices", "indices_without_intermediate"]
-    ck.ob("R6-no-intermediate-view", CQ + ".sample_batch", "same-window-for-all-fields", ok, f"gather indices {idxs}", "" if ok else "every field must be gathered from the same sampled window", loc(mi, f4))
+    # no-intermediate view: which index gathers each field (key-specialised partial evaluation of the branch)
+    per_key = _field_indices(c4, ifn[0].ast.orelse, f4)
+    ck.need(per_key, f"{CQ}.sample_batch: per-field index selection of the no-intermediate view not found (unrecognised idiom)")
+    w_first = nf.poly(parse_expr("indices[:, 0]"), s4, ifn[0].id).canon()
+    w_last = nf.poly(parse_expr("indices[:, -1]"), s4, ifn[0].id).canon()
+    w_all = iv
+    start_c = nf.poly(parse_expr("self._sample_idx(batch_size, rng)"), Scope(None, mi, s4.env, "w"), None).canon()
+    REDUCERS = ("mod(", "remainder(", "fmod(", "where(", "take(", "divmod(")
+    for key, (ix, at) in sorted(per_key.items()):
+        got = nf.poly(ix, s4, at).canon()
+        role = "first" if key in ("observation", "action") else "last" if key == "next_observation" else "window"
+        want_k = {"first": w_first, "last": w_last, "window": w_all}[role]
+        ok = got == want_k or (role == "first" and got == start_c)   # start itself lies in [0, current_len): same slot as column 0
+        why = ""
+        if not ok:
+            if start_c not in got:
+                why = f"the gather index of `{key}` does not derive from the sampled start index: the field comes from another transition than the rest of the row"
+            elif role == "last" and not any(r in got for r in REDUCERS):
+                why = (f"the successor index of `{key}` ({got[:90]}) is an offset from the start that is never reduced modulo the ring length: "
+                       "windows that wrap around the end of the storage read the wrong slot (or clamp to the last slot)")
+            elif role == "last" and got.startswith(w_all + "["):
+                why = f"`{key}` is gathered at another column of the window ({got[len(w_all):]}) than the last one: the successor observation does not belong to the end of the n-step window"
+            elif role == "window" or role == "first":
+                why = f"`{key}` must be gathered at {'the first column of the window' if role == 'first' else 'the full window'} ({want_k[:80]}), got {got[:90]}"
+            else:
+                raise AnalysisError(f"{CQ}.sample_batch: successor index `{got[:120]}` is neither indices[:, -1] nor a form this check can decide")
+        ck.ob("R6-no-intermediate-view", CQ + ".sample_batch", f"field:{key}", ok, f"{key} <- buffer[{short(ix, 50)}]", why, loc(mi, ix) if hasattr(ix, "lineno") else loc(mi, f4))
+    ck.floor("no-intermediate-fields", len(per_key), 5)
 
 
 _F = "rl_blox/blox/replay_buffer.py"
 MUTANTS = [
+    {"id": "c04-table-clamped-successor", "file": "rl_blox/blox/replay_buffer.py", "rule": "R6", "find": "            batch = {}\n            for k in self.buffer:\n                if k in [\"observation\", \"action\"]:\n                    indices_without_intermediate = indices[:, 0]\n                elif k == \"next_observation\":\n                    indices_without_intermediate = indices[:, -1]\n                else:\n                    indices_without_intermediate = indices\n                batch[k] = jnp.asarray(\n                    self.buffer[k][indices_without_intermediate]\n                )\n            batch = self.Batch(**batch)\n", "replace": "            select = {\n                \"observation\": indices[:, 0],\n                \"action\": indices[:, 0],\n                \"next_observation\": np.minimum(indices[:, 0] + horizon, self.current_len) - 1,\n            }\n            batch = self.Batch(\n                **{\n                    k: jnp.asarray(self.buffer[k][select.get(k, indices)])\n                    for k in self.buffer\n                }\n            )\n"},
+    {"id": "c04-table-action-last", "file": "rl_blox/blox/replay_buffer.py", "rule": "R6", "find": "            batch = {}\n            for k in self.buffer:\n                if k in [\"observation\", \"action\"]:\n                    indices_without_intermediate = indices[:, 0]\n                elif k == \"next_observation\":\n                    indices_without_intermediate = indices[:, -1]\n                else:\n                    indices_without_intermediate = indices\n                batch[k] = jnp.asarray(\n                    self.buffer[k][indices_without_intermediate]\n                )\n            batch = self.Batch(**batch)\n", "replace": "            select = {\n                \"observation\": indices[:, 0],\n                \"action\": indices[:, -1],\n                \"next_observation\": indices[:, -1],\n            }\n            batch = self.Batch(\n                **{\n                    k: jnp.asarray(self.buffer[k][select.get(k, indices)])\n                    for k in self.buffer\n                }\n            )\n"},
     {"id": "c04-no-clear", "file": _F, "rule": "R1", "find": "        self.mask_[self.insert_idx] = 0\n        if self.episode_timesteps > self.horizon:", "replace": "        if self.episode_timesteps > self.horizon:"},
     {"id": "c04-clear-after-advance", "file": _F, "rule": "R1", "find": "        self.mask_[self.insert_idx] = 0\n        if self.episode_timesteps > self.horizon:\n            self.mask_[(self.insert_idx - self.horizon) % self.buffer_size] = 1\n\n        inserted_at = [self.insert_idx]\n        self.insert_idx = (self.insert_idx + 1) % self.buffer_size\n",
      "replace": "        if self.episode_timesteps > self.horizon:\n            self.mask_[(self.insert_idx - self.horizon) % self.buffer_size] = 1\n\n        inserted_at = [self.insert_idx]\n        self.insert_idx = (self.insert_idx + 1) % self.buffer_size\n        self.mask_[self.insert_idx] = 0\n"},
@@ -280,6 +392,7 @@ MUTANTS = [
     {"id": "c04-action-last", "file": _F, "rule": "R6", "find": "                if k in [\"observation\", \"action\"]:", "replace": "                if k in [\"observation\"]:"},
 ]
 BENIGN = [
+    {"id": "c04-b-table-comprehension", "file": "rl_blox/blox/replay_buffer.py", "find": "            batch = {}\n            for k in self.buffer:\n                if k in [\"observation\", \"action\"]:\n                    indices_without_intermediate = indices[:, 0]\n                elif k == \"next_observation\":\n                    indices_without_intermediate = indices[:, -1]\n                else:\n                    indices_without_intermediate = indices\n                batch[k] = jnp.asarray(\n                    self.buffer[k][indices_without_intermediate]\n                )\n            batch = self.Batch(**batch)\n", "replace": "            select = {\n                \"observation\": indices[:, 0],\n                \"action\": indices[:, 0],\n                \"next_observation\": indices[:, -1],\n            }\n            batch = self.Batch(\n                **{\n                    k: jnp.asarray(self.buffer[k][select.get(k, indices)])\n                    for k in self.buffer\n                }\n            )\n"},
     {"id": "c04-b-enable-commuted", "file": _F, "find": "            self.mask_[(self.insert_idx - self.horizon) % self.buffer_size] = 1", "replace": "            self.mask_[(-self.horizon + self.insert_idx) % self.buffer_size] = 1"},
     {"id": "c04-b-guard-flipped", "file": _F, "find": "        if self.episode_timesteps > self.horizon:", "replace": "        if self.episode_timesteps > self.horizon and True:"},
 ]
